@@ -64,8 +64,10 @@ Print Assumptions C15_dead_peer_bound_partial_close.
 (* (4) a wake-up from dormancy at a (first stream after an idle period): if a byte was read while
    dormant (t0 = last) it is treated as read activity - no ping before t0 + Time, ping at once
    if that is already past; otherwise the ping goes out at a.  With (2) and (3): a silent peer
-   is closed at max(t0 + Time, a) + Timeout. *)
+   is closed at max(t0 + Time, a) + Timeout.  (A stream can only be opened on a transport that
+   is not draining.) *)
 Theorem C15_dead_peer_bound_partial_wake : forall c s, cfg_ok c -> kinv c s -> k_closed s = false -> k_dorm s = true ->
+  k_drain s = false ->
   let r := act c s KOpen in
   k_dorm (fst r) = false /\
   (k_prev s < k_last s ->
@@ -85,6 +87,33 @@ Theorem C15_dormancy_wake_bound_witness :
   [[12001]; [92002]; [192003; 6; 192003]; [196004]; [196005]; [200006; 8; 197003]; [201007]; [211008]].
 Proof. exact dormancy_wake_bound_witness. Qed.
 Print Assumptions C15_dormancy_wake_bound_witness.
+
+(* (5) keepalive stays applicable on a transport that is draining after a graceful GOAWAY (a
+   stream is still open): for the loop the GOAWAY is a read and nothing else, and (1)-(3) are
+   stated for every state, draining ones included. *)
+Theorem C15_dead_peer_bound_partial_draining : forall c s, k_closed s = false -> 1 <= k_streams s ->
+  let r := act c s KGoAway in
+  snd r = [] /\ k_drain (fst r) = true /\ k_last (fst r) = k_now s /\ k_closed (fst r) = false /\
+  k_timer (fst r) = k_timer s /\ k_out (fst r) = k_out s /\ k_left (fst r) = k_left s /\
+  k_prev (fst r) = k_prev s /\ k_dorm (fst r) = k_dorm s /\ k_streams (fst r) = k_streams s.
+Proof. exact goaway_only_a_read. Qed.
+Print Assumptions C15_dead_peer_bound_partial_draining.
+
+(* ... witness: Time 5 s, Timeout 2 s; a stream at 1 ms, GOAWAY at 2 ms, then silence: ping at
+   5.002 s = GOAWAY + Time, closed at 7.002 s *)
+Theorem C15_draining_dead_peer_witness :
+  krun (mkkc 5000 2000 false) (kinit (mkkc 5000 2000 false)) [(0, KOpen); (0, KGoAway); (5, KWait); (3, KWait)] =
+  [[1]; [2]; [5003; 6; 5002]; [8004; 8; 7002]].
+Proof. exact draining_dead_peer_witness. Qed.
+Print Assumptions C15_draining_dead_peer_witness.
+
+(* "closes the connection": for every timeline, a transport that the loop has closed shows the
+   close event in its observations (what clause 8 demands of the implementation's trace at the
+   moments at which the model's transport is closed). *)
+Theorem C15_closed_transport_shows_close : forall c ops, cfg_ok c -> xs_ok ops ->
+  k_closed (kreach c (kinit c) ops) = true -> shows_close (krun c (kinit c) ops) = true.
+Proof. exact closed_shown. Qed.
+Print Assumptions C15_closed_transport_shows_close.
 
 (* "A server never sends GOAWAY ENHANCE_YOUR_CALM to a client whose consecutive pings are at
    least MinTime apart while it has streams (or PermitWithoutStream) and at least two hours apart
